@@ -3,7 +3,7 @@ import re
 from engine import rule, Ob, key_of, EXPLAIN, ASSUME
 from sym import Lin, add, sub, const, tag, show, is_const, as_lin, implied_facts, struct_get
 from util import *
-from order import Order, term_eq
+from order import Order, term_eq, atoms_deep
 
 EXPLAIN["C09"] = (
     "Decides on the memmap code (outside the 68-test baseline): the size check dominates the mapping call on the "
@@ -444,12 +444,13 @@ def op8(ctx):
 
 
 @rule("C09-Op9", "C09", 2, "the open functions compute with the file's length and the caller's offset / capacity before anything is validated: no such subtraction can "
-      "underflow (a file shorter than the mapping offset must be refused with an error, not with a panic)", configs=MEMCFG)
+      "underflow (a file shorter than the mapping offset must be refused with an error, not with a panic) and no sum `offset + length` can exceed u64 (with_offset takes "
+      "any u64: the sum must be checked, not wrapped into a small file length or a panic); the re-mapping in Memory::truncate computes the same sum", configs=MEMCFG, also=("C18",))
 def op9(ctx):
-    for name in ("map_in", "map_mut_in"):
+    for name in ("map_in", "map_mut_in", "truncate"):
         b = ctx.facts.one(r"^memory::Memory::<R, PR, H>::%s$" % name)
         ev, res = ctx.eval(b, no_inline=(r"\{closure",))
-        subs = [a for a in res.log if a["kind"] == "arith" and a["op"] == "Sub" and not a.get("unchecked")]
+        subs = [a for a in res.log if a["kind"] == "arith" and a["op"] == "Sub" and not a.get("unchecked")] if name != "truncate" else []
         bad = 0
         for a in subs:
             fs = set(canon(f) for f in ctx.facts_of(ev, a))
@@ -459,4 +460,43 @@ def op9(ctx):
                 role = "file-size-minus-offset" if ("metadata" in show(x) and "offset" in show(y)) else "subtraction"
                 yield Ob(key_of("C09-Op9", b.path, role, bad), False,
                          "Sub(%s, %s) in %s is not dominated by a guard: a file shorter than that panics (overflow checks) or wraps instead of being refused" % (short(x, 70), short(y, 50), name), ctx.loc(a))
-        yield Ob(key_of("C09-Op9", b.path, "subtractions"), True, "%d subtraction(s) on the open path, %d unguarded" % (len(subs), bad), b.loc(), trivial=bad == 0)
+        adds = [a for a in res.log if a["kind"] == "arith" and a["op"] == "Add" and not a["chain"] and re.search(r"\boffset\b", show(a["a"]) + " " + show(a["b"]))]
+        badd = 0
+        for a in adds:
+            fs = set(canon(f) for f in ctx.facts_of(ev, a))
+            x, y = canon(a["a"]), canon(a["b"])
+            # an Option<u32> capacity widened to u64 is at most u32::MAX
+            ext = [sub(const(2**32 - 1), t) for t in atoms_deep(as_lin(add(x, y))) if tag(t) == "payload" and "capacity" in show(t)]
+            if not Order(fs, extra_ge0=ext).le(add(x, y), const(2**64 - 1)):
+                badd += 1
+                yield Ob(key_of("C09-Op9", b.path, "offset-plus-length", badd), False,
+                         "Add(%s, %s) in %s is unchecked: with_offset(u64::MAX - 7) panics under overflow checks and otherwise wraps into a small length passed to File::set_len" % (short(x, 60), short(y, 50), name), ctx.loc(a))
+        yield Ob(key_of("C09-Op9", b.path, "subtractions"), True, "%d subtraction(s) / %d offset sum(s) on the %s path, %d / %d unguarded" % (len(subs), len(adds), name, bad, badd), b.loc(), trivial=bad + badd == 0)
+
+
+@rule("C09-Op10", "C09", 3, "an arena addresses its memory with 32-bit offsets: the length of the mapping an open function obtained (the whole file when no capacity is given) "
+      "becomes the capacity only under a guard len <= u32::MAX - a longer file must be refused, not opened with capacity len mod 2^32 (the stored cursor, validated "
+      "against the un-narrowed length, may then lie beyond the capacity); the anonymous map's length is the u32 capacity option",
+      configs=MEMCFG, also=("C05", "C15"))
+def op10(ctx):
+    for name in ("map_in", "map_mut_in"):
+        cl = ctx.facts.one(r"^memory::Memory::<R, PR, H>::%s::\{closure#0\}$" % name)
+        ev, res = ctx.eval(cl)
+        casts = [c for c in res.log if c["kind"] == "cast" and c.get("ty") == "u32" and not c["chain"] and re.search(r"\blen\(", show(c["value"]))]
+        bad = 0
+        for c in casts:
+            fs = set(canon(f) for f in facts_through_helpers(ctx, ev, c, res))
+            if not Order(fs).le(canon(c["value"]), const(2**32 - 1)):
+                bad += 1
+                yield Ob(key_of("C09-Op10", cl.path, "mapping-length-narrowed-unguarded", bad), False,
+                         "`%s as u32` without a guard len <= u32::MAX: a file of 2^32 + 100 bytes opened without a capacity yields an arena of capacity 100 whose cursor may be anything up to 2^32 - 1" % short(c["value"], 50), ctx.loc(c))
+        yield Ob(key_of("C09-Op10", cl.path, "mapping-length-casts"), len(casts) >= 1, "%d narrowing cast(s) of the mapping length in %s, %d unguarded" % (len(casts), name, bad), cl.loc(), trivial=bad == 0)
+    # the anonymous map: created from to_mmap_options(), whose only `len` comes from the u32 capacity
+    b = ctx.facts.one(r"options::Options>::to_mmap_options$")
+    lens = [(bb, t) for bb, t in b.calls() if re.search(r"MmapOptions::len$", t.get("resolved") or t.get("callee") or "")]
+    ev, res = ctx.eval(b)
+    calls = [e for e in res.log if e["kind"] == "call" and not e["chain"] and e["callee"].endswith("MmapOptions::len")]
+    capty = [f["ty"] for x in ctx.facts.adts.values() if x["path"].endswith("options::Options") for v in x["variants"] for f in v["fields"] if f["name"] == "capacity"]
+    ok = len(lens) == 1 and len(calls) == 1 and "capacity" in show(calls[0]["args"][1]) and len(capty) == 1 and re.search(r"Option<u32>$", capty[0]) is not None
+    yield Ob(key_of("C09-Op10", b.path, "anonymous-length-is-the-u32-capacity"), ok,
+             "to_mmap_options sets the mapping length %d time(s), from %s (Options::capacity: %s)" % (len(lens), short(calls[0]["args"][1], 60) if calls else "?", capty), b.loc())
